@@ -728,7 +728,8 @@ Section Proofs.
   Lemma core_dirs s a : st_dirs (core s a) = st_dirs s.
   Proof.
     destruct a as [p|p|? ?|]; cbn [core]; [| |reflexivity|reflexivity].
-    - unfold Model.do_est. destruct (Z.eqb _ _); [reflexivity|].
+    - destruct (st_ready s); [|reflexivity].
+      unfold Model.do_est. destruct (Z.eqb _ _); [reflexivity|].
       destruct (aget _ _) as [q|]; [destruct (Nat.eqb q p)|]; reflexivity.
     - unfold Model.do_lost.
       destruct (aget _ _) as [q|]; [destruct (Nat.eqb q p)|]; try reflexivity;
@@ -738,14 +739,38 @@ Section Proofs.
   Definition DirOk (me : Z) (h : list action) (a b : Z) (q : nat) : Prop :=
     (a = 0 \/ a = me) /\ b <> 0 /\ remote_of q = b /\ remote_of q <> me /\ In (Est q) h.
 
-  Lemma lget_established me h q : lget (run me h) (uuid_of q) = Some q -> In (Est q) h.
-  Proof.
-    intros H. apply (rel_run me h) in H. unfold Model.live in H.
-    apply live_established in H as [[]|H]. exact H.
-  Qed.
-
   Lemma run_snoc me h x : run me (h ++ [x]) = fst (step (run me h) x).
   Proof. rewrite run_app. reflexivity. Qed.
+
+  (* a link only enters the table through its own establish lock region *)
+  Lemma core_lget_sub s a k q :
+    Inv s -> lget (core s a) k = Some q -> lget s k = Some q \/ a = Est q.
+  Proof.
+    intros I. destruct a as [p|p|? ?|]; cbn [core]; [| |auto|auto].
+    - destruct (st_ready s); [|auto].
+      unfold Model.do_est. destruct (Z.eqb _ _); [auto|].
+      fold (lget s (uuid_of p)). destruct (lget s (uuid_of p)) as [x|] eqn:Ex.
+      + destruct (Nat.eqb x p); [auto|].
+        rewrite insert_lget, flush_lget. destruct (Z.eqb k (uuid_of p)).
+        * intros H; inversion H; auto.
+        * destruct (Z.eqb k (uuid_of x)); [discriminate|auto].
+      + rewrite insert_lget. destruct (Z.eqb k (uuid_of p)); [intros H; inversion H; auto|auto].
+    - rewrite do_lost_eq by exact I. destruct (option_eqb _ _ _); [|auto].
+      rewrite flush_lget. destruct (Z.eqb k (uuid_of p)); [discriminate|auto].
+  Qed.
+
+  Lemma table_established me h : forall k q, lget (run me h) k = Some q -> In (Est q) h.
+  Proof.
+    induction h as [|x h IH] using rev_ind; intros k q H; [discriminate|].
+    rewrite run_snoc in H. destruct (step_core (run me h) x) as [d E]. rewrite E in H.
+    change (lget (core (run me h) x) k = Some q) in H.
+    apply core_lget_sub in H; [|apply inv_run]. destruct H as [H| ->].
+    - apply in_or_app. left. eapply IH, H.
+    - apply in_or_app. right. left. reflexivity.
+  Qed.
+
+  Lemma lget_established me h q : lget (run me h) (uuid_of q) = Some q -> In (Est q) h.
+  Proof. apply table_established. Qed.
 
   Lemma resolve_ok me h s' a b q :
     Inv s' -> st_peer s' = me ->
@@ -773,13 +798,17 @@ Section Proofs.
     rewrite run_snoc in Hin. rewrite run_snoc in Hnew.
     set (s := run me h) in *.
     destruct x as [p|p|src dst|]; cbn [step_gen] in Hin, Hnew.
-    - destruct (est_stores U s p); cbn [fst] in Hin, Hnew.
+    - destruct (st_ready s); cbn [negb] in Hin, Hnew;
+        [|cbn [fst close_only st_dirs] in Hin; apply Hmono; eapply IH; eassumption].
+      destruct (est_stores U s p); cbn [fst] in Hin, Hnew.
       + pose proof (refresh_dirs _ _ _ _ Hin) as ->.
         destruct (dir_start_tables (do_est s p) (Model.local_of U p) (Model.remote_of U p)) as [d Ed].
         rewrite Ed in Hq. apply (Hnew _ eq_refl d).
         rewrite Ed. exact Hq.
-      + change (do_est s p) with (core s (Est p)) in Hin. rewrite core_dirs in Hin.
-        apply Hmono. eapply IH; eassumption.
+      + assert (Ed : st_dirs (do_est s p) = st_dirs s).
+        { unfold Model.do_est. destruct (Z.eqb _ _); [reflexivity|].
+          destruct (aget _ _) as [x|]; [destruct (Nat.eqb x p)|]; reflexivity. }
+        rewrite Ed in Hin. apply Hmono. eapply IH; eassumption.
     - destruct (lb && lost_flushes U s p); cbn [fst] in Hin, Hnew.
       + pose proof (refresh_dirs _ _ _ _ Hin) as ->.
         apply (Hnew _ eq_refl (st_dirs (refresh (do_lost s p)))). exact Hq.
@@ -806,15 +835,7 @@ Section Proofs.
 
   (* the transport, once constructed, stays constructed *)
   Lemma step_ready s a : st_ready s = true -> st_ready (fst (step s a)) = true.
-  Proof.
-    intros H. destruct (step_core s a) as [d ->]. cbn [set_dirs st_ready].
-    destruct a as [p|p|? ?|]; cbn [core]; [| |exact H|reflexivity].
-    - unfold Model.do_est. destruct (Z.eqb _ _); [exact H|].
-      destruct (aget _ _) as [q|]; [destruct (Nat.eqb q p)|]; exact H.
-    - unfold Model.do_lost.
-      destruct (aget _ _) as [q|]; [destruct (Nat.eqb q p)|]; try exact H;
-        destruct (find_val _ _); exact H.
-  Qed.
+  Proof. intros H. rewrite step_ready_eq, H. destruct a; reflexivity. Qed.
 
   Lemma run_from_ready h : forall s, st_ready s = true -> st_ready (run_from s h) = true.
   Proof.
@@ -874,7 +895,9 @@ Section Fresh.
   Lemma fresh_step s a : Inv U s -> Fresh s -> Fresh (fst (step s a)).
   Proof.
     intros I F. destruct a as [p|p|src dst|]; cbn [step_gen].
-    - destruct (est_stores U s p) eqn:E; cbn [fst]; [apply fresh_refresh|].
+    - destruct (st_ready s) eqn:Er; cbn [negb];
+        [|cbn [fst]; intros a b v H; rewrite (F a b v H); unfold resolve; cbn [close_only st_ready]; rewrite Er; reflexivity].
+      destruct (est_stores U s p) eqn:E; cbn [fst]; [apply fresh_refresh|].
       (* nothing stored: self-dial or duplicate, linksByPeerID unchanged *)
       unfold est_stores in E. unfold Model.do_est.
       destruct (Z.eqb (Model.remote_of U p) (st_peer s)); cbn [negb andb] in E.
@@ -922,11 +945,11 @@ Section Fresh.
   (* with a broadcast after every table change, a request yields exactly the
      live links between the two peers *)
   Theorem yielded_is_live_when_lost_broadcasts me h src dst q :
-    rdy = true \/ In Ready h ->
+    rdy = true \/ In Ready h -> wf rdy h ->
     In q (yielded U true rdy me h src dst) <->
     dst <> 0 /\ (src = 0 \/ src = me) /\ In q (live U me h) /\ Model.remote_of U q = dst.
   Proof.
-    intros Hready. apply (run_ready U true rdy me h) in Hready.
+    intros Hready Hwf. apply (run_ready U true rdy me h) in Hready.
     unfold yielded. cbn [step_gen].
     pose proof (run_peer U true rdy me h) as Hp.
     destruct (Z.eqb_spec dst 0) as [->|Hd]; cbn [snd]; [split; [intros []|tauto]|].
@@ -947,9 +970,9 @@ Section Fresh.
     destruct T2 as [d T2]. rewrite T2, resolve_set_dirs. clear F2 Ev T2. subst s2 s1 s.
     unfold resolve. rewrite Hready. cbn [negb]. destruct (Z.eqb_spec dst 0); [contradiction|]. rewrite Hp.
     destruct (Z.eqb_spec src 0) as [->|Hs]; cbn [negb andb].
-    - rewrite (reported_is_live U true rdy me h dst q). tauto.
+    - rewrite (reported_is_live U true rdy me h dst q Hwf). tauto.
     - destruct (Z.eqb_spec src me) as [->|]; cbn [negb].
-      + rewrite (reported_is_live U true rdy me h dst q). tauto.
+      + rewrite (reported_is_live U true rdy me h dst q Hwf). tauto.
       + split; [intros []|]. intros (_ & [?|?] & _); contradiction.
   Qed.
 End Fresh.
@@ -988,9 +1011,13 @@ Theorem arrival_time_irrelevant U me pre h src dst q :
    In q (yielded U true true me h src dst)).
 Proof.
   intros Hp.
+  assert (Hwf : wf false (pre ++ Ready :: h)).
+  { clear -Hp. induction pre as [|a pre IH]; [apply wf_true|].
+    cbn [forallb] in Hp. apply andb_true_iff in Hp as [Ha Hp]. destruct a; try discriminate.
+    cbn. apply IH, Hp. }
   rewrite (yielded_is_live_when_lost_broadcasts U false me (pre ++ Ready :: h) src dst q)
-    by (right; apply in_or_app; right; left; reflexivity).
-  rewrite (yielded_is_live_when_lost_broadcasts U true me h src dst q) by (left; reflexivity).
+    by (first [right; apply in_or_app; right; left; reflexivity|exact Hwf]).
+  rewrite (yielded_is_live_when_lost_broadcasts U true me h src dst q) by (first [left; reflexivity|apply wf_true]).
   rewrite (live_requests_prefix U me pre h Hp). reflexivity.
 Qed.
 
@@ -1024,7 +1051,8 @@ Proof.
   destruct s as [p l b c d r], s' as [p' l' b' c' d' r']. unfold teq. cbn.
   intros (-> & -> & -> & -> & ->).
   destruct a as [q|q|? ?|]; cbn [core]; [| |repeat split|repeat split].
-  - unfold do_est, insert, flush, close_only, peer_links. cbn.
+  - destruct r'; [|repeat split].
+    unfold do_est, insert, flush, close_only, peer_links. cbn.
     destruct (Z.eqb _ p'); [repeat split|].
     destruct (aget _ l') as [x|]; [destruct (Nat.eqb x q)|]; repeat split.
   - unfold do_lost, flush, peer_links. cbn.
